@@ -94,16 +94,20 @@ impl ExopParser for PasswordModifyResp {
             .expect_constructed()
             .expect("password modify sequence")
             .into_iter();
-        let gen_pass = tags
-            .next()
-            .expect("element")
-            .match_class(TagClass::Context)
-            .and_then(|t| t.match_id(0))
-            .and_then(|t| t.expect_primitive())
-            .expect("generated password")
-            .as_slice()
-            .to_owned();
-        let gen_pass = String::from_utf8(gen_pass).expect("generated password not UTF-8");
+        let gen_pass = match tags.next() {
+            Some(tag) => {
+                let gen_pass = tag
+                    .match_class(TagClass::Context)
+                    .and_then(|t| t.match_id(0))
+                    .and_then(|t| t.expect_primitive())
+                    .expect("generated password")
+                    .as_slice()
+                    .to_owned();
+                String::from_utf8(gen_pass).expect("generated password not UTF-8")
+            }
+            // genPasswd is OPTIONAL: without it, there is no generated password
+            None => String::new(),
+        };
         PasswordModifyResp { gen_pass }
     }
 }
